@@ -352,3 +352,65 @@ Definition op_ok (o : op) : Prop := Forall operand_ok (op_operands o).
 Definition xop_ok (o : xop) : Prop := Forall operand_ok (xop_operands o).
 Definition op_okb (o : op) : bool := forallb operand_okb (op_operands o).
 Definition xop_okb (o : xop) : bool := forallb operand_okb (xop_operands o).
+
+(* ================= the storing discipline under which programs keep every container acyclic (theorems: Acyclic.v) ================= *)
+Fixpoint reachb (fuel : nat) (h : heap) (v : hval) (id : nat) : bool :=
+  match fuel with
+  | O => false
+  | S f =>
+      match v with
+      | HL i => Nat.eqb i id || match get_list h i with
+                                | Some l => existsb (fun x => reachb f h x id) l
+                                | None => false
+                                end
+      | HO i => Nat.eqb i id || match get_obj h i with
+                                | Some kvs => existsb (fun kv => reachb f h (snd kv) id) kvs
+                                | None => false
+                                end
+      | _ => false
+      end
+  end.
+
+Definition same_cont (x y : hval) : bool :=
+  match x, y with
+  | HL i, HL j | HL i, HO j | HO i, HL j | HO i, HO j => Nat.eqb i j
+  | _, _ => false
+  end.
+(* x may be stored into the existing container id: x is not that container and does not reach it *)
+Definition store_okb (h : heap) (id : nat) (x : hval) : bool :=
+  negb (same_cont x (HL id)) && negb (reachb (S (length h)) h x id).
+(* x may be stored somewhere below root by SetTF: x is not the root and reaches no container reachable from the root *)
+Definition tf_store_okb (h : heap) (root x : hval) : bool :=
+  negb (same_cont x root) &&
+  forallb (fun id => negb (reachb (S (length h)) h root id && reachb (S (length h)) h x id)) (seq 0 (length h)).
+
+Definition stores_okb (s : state) (o : xop) : bool :=
+  match o with
+  | Base (LAdd r vs) =>
+      match reg_list s r, eval_operands (st_env s) vs with
+      | Some (id, _), Some xs => forallb (store_okb (st_heap s) id) xs
+      | _, _ => true
+      end
+  | Base (LInsert r _ v) | Base (LReplace r _ v) =>
+      match reg_list s r, eval_operand (st_env s) v with
+      | Some (id, _), Some x => store_okb (st_heap s) id x
+      | _, _ => true
+      end
+  | Base (OSet r args) =>
+      match reg_obj s r, eval_operands (st_env s) args with
+      | Some (id, _), Some xs => forallb (store_okb (st_heap s) id) xs
+      | _, _ => true
+      end
+  | Base (SetTF r _ v) =>
+      match nth_error (st_env s) r, eval_operand (st_env s) v with
+      | Some root, Some x => tf_store_okb (st_heap s) root x
+      | _, _ => true
+      end
+  | _ => true
+  end.
+
+Fixpoint run_okb (fadd fmul fdiv : Z -> Z -> Z) (of_int : Z -> Z) (s : state) (prog : list xop) : bool :=
+  match prog with
+  | [] => true
+  | o :: t => xop_okb o && stores_okb s o && run_okb fadd fmul fdiv of_int (fst (xstep fadd fmul fdiv of_int s o)) t
+  end.
